@@ -4,27 +4,751 @@ Lemmas behind C11: the codec model's round trip and "accepted implies conforming
 import CambrianModel.Model.Json
 namespace Cambrian
 
+/-! ### `parseUsize` -/
+
 /-- `usize::to_string` then `str::parse::<usize>` is the identity -/
 theorem parseUsize_toString (k : Nat) (h : k ≤ usizeMax) : parseUsize (toString k) = some k := by
-  sorry
+  have hl : (toString k).toList = Nat.toDigits 10 k := by
+    rw [Nat.toString_eq_repr, Nat.toList_repr]
+  have hdig : ∀ c ∈ Nat.toDigits 10 k, c.isDigit = true :=
+    fun c hc => Nat.isDigit_of_mem_toDigits (by decide) (by decide) hc
+  have hne : Nat.toDigits 10 k ≠ [] := Nat.toDigits_ne_nil
+  have hval : Nat.ofDigitChars 10 (Nat.toDigits 10 k) 0 = k := Nat.ofDigitChars_ten_toDigits
+  unfold parseUsize
+  simp only [hl]
+  generalize Nat.toDigits 10 k = ds at *
+  have hall : ds.all Char.isDigit = true := by
+    rw [List.all_eq_true]; exact hdig
+  split
+  · rename_i r
+    have := hdig '+' (by simp)
+    exact absurd this (by decide)
+  · cases ds with
+    | nil => exact absurd rfl hne
+    | cons c r => simp [hall, hval, h]
 
-/-- the initial value of a well-formed spec conforms to it -/
+/-! ### the initial value conforms -/
+
+theorem replicateV_length (v : VNode) : ∀ n, (replicateV v n).length = n
+  | 0 => rfl
+  | n+1 => by simp [replicateV, VList.length, replicateV_length v n]
+
+theorem replicateV_conf (e : SNode) (v : VNode) (h : conf e v = true) : ∀ n, confList e (replicateV v n) = true
+  | 0 => by simp [replicateV, confList]
+  | n+1 => by simp [replicateV, confList, h, replicateV_conf e v h n]
+
+theorem rangeE_length (v : VNode) : ∀ n a, (rangeE v a n).length = n
+  | 0, _ => rfl
+  | n+1, a => by simp [rangeE, VEntries.length, rangeE_length v n (a+1)]
+
+theorem rangeE_conf (e : SNode) (v : VNode) (h : conf e v = true) : ∀ n a, confEntries e (rangeE v a n) = true
+  | 0, _ => by simp [rangeE, confEntries]
+  | n+1, a => by simp [rangeE, confEntries, h, rangeE_conf e v h n (a+1)]
+
+theorem rangeE_sorted (v : VNode) : ∀ n a, sortedNat (rangeE v a n).keys = true
+  | 0, _ => by simp [rangeE, VEntries.keys, sortedNat]
+  | 1, a => by simp [rangeE, VEntries.keys, sortedNat]
+  | n+2, a => by
+      have := rangeE_sorted v (n+1) (a+1)
+      simp only [rangeE, VEntries.keys] at this ⊢
+      simp [sortedNat, this]
+
+theorem rangeE_keys_le (v : VNode) : ∀ n a, a + n ≤ usizeMax + 1 →
+    (rangeE v a n).keys.all (fun k => decide (k ≤ usizeMax)) = true
+  | 0, _, _ => by simp [rangeE, VEntries.keys]
+  | n+1, a, h => by
+      have := rangeE_keys_le v n (a+1) (by omega)
+      simp only [rangeE, VEntries.keys, List.all_cons, this, Bool.and_true]
+      simp; omega
+
+theorem lookup_wf : ∀ (o : SFields) (k : String) (cs : SNode), wfFields o = true → o.lookup k = some cs → wf cs = true
+  | .nil, _, _, _, h => by simp [SFields.lookup] at h
+  | .cons k' n r, k, cs, hw, h => by
+      simp only [wfFields, Bool.and_eq_true] at hw
+      simp only [SFields.lookup] at h
+      split at h
+      · injection h with h; subst h; exact hw.1
+      · exact lookup_wf r k cs hw.2 h
+
+mutual
 theorem initialValue_conf (s : SNode) (hs : wf s = true) : conf s (initialValue s) = true := by
-  sorry
+  cases s with
+  | real i sc mn mx =>
+      simp only [wf, Bool.and_eq_true] at hs
+      simp only [initialValue, conf, inBoundsF, Bool.and_eq_true]
+      exact ⟨⟨hs.1.1.1.1.1.1.1, hs.1.2⟩, hs.2⟩
+  | int i sc mn mx =>
+      simp only [wf, Bool.and_eq_true] at hs
+      simp only [initialValue, conf, inBoundsI, Bool.and_eq_true]
+      exact ⟨⟨hs.1.1.1.1.1.1.1, hs.1.2⟩, hs.2⟩
+  | bool b => simp [initialValue, conf]
+  | sub f =>
+      simp only [wf, Bool.and_eq_true] at hs
+      simp only [initialValue, conf]
+      exact initialFields_conf f hs.2
+  | array e n =>
+      simp only [wf, Bool.and_eq_true] at hs
+      simp only [initialValue, conf, Bool.and_eq_true]
+      exact ⟨by simp [replicateV_length], replicateV_conf e _ (initialValue_conf e hs.2) n⟩
+  | amap e n mn mx =>
+      simp only [wf, Bool.and_eq_true, decide_eq_true_eq] at hs
+      simp only [initialValue, conf, Bool.and_eq_true]
+      refine ⟨⟨⟨rangeE_sorted _ _ _, rangeE_keys_le _ _ _ (by omega)⟩, ?_⟩, rangeE_conf e _ (initialValue_conf e hs.2) n 0⟩
+      rw [rangeE_length]; exact hs.1.1.1.2
+  | variant o i =>
+      simp only [wf, Bool.and_eq_true] at hs
+      simp only [initialValue, conf]
+      obtain ⟨cs, h1, h2⟩ := initialOpt_conf o i hs.2 hs.1.2
+      simp [h1, h2]
+  | «enum» vs i =>
+      simp only [wf, Bool.and_eq_true] at hs
+      simp only [initialValue, conf]
+      exact hs.2
+  | opt e p =>
+      simp only [wf] at hs
+      cases p
+      · simp [initialValue, conf]
+      · simp [initialValue, conf, initialValue_conf e hs]
+  | const => simp [initialValue, conf]
+theorem initialFields_conf (f : SFields) (hs : wfFields f = true) : confFields f (initialFields f) = true := by
+  cases f with
+  | nil => simp [initialFields, confFields]
+  | cons k n r =>
+      simp only [wfFields, Bool.and_eq_true] at hs
+      simp [initialFields, confFields, initialValue_conf n hs.1, initialFields_conf r hs.2]
+theorem initialOpt_conf (o : SFields) (i : String) (hs : wfFields o = true) (hc : o.keys.contains i = true) :
+    ∃ cs, o.lookup i = some cs ∧ conf cs (initialOpt o i) = true := by
+  cases o with
+  | nil => simp [SFields.keys] at hc
+  | cons k n r =>
+      simp only [wfFields, Bool.and_eq_true] at hs
+      simp only [SFields.lookup, initialOpt]
+      by_cases hk : (k == i) = true
+      · simp only [hk, if_true]
+        exact ⟨n, rfl, initialValue_conf n hs.1⟩
+      · simp only [hk]
+        apply initialOpt_conf r i hs.2
+        simp only [SFields.keys, List.contains_cons, Bool.or_eq_true] at hc
+        rcases hc with hc | hc
+        · exfalso; apply hk
+          have : i = k := by simpa using hc
+          simp [this]
+        · exact hc
+end
 
-/-- whatever `fromJson` accepts conforms to the spec -/
-theorem fromJson_conf (cast : Int → F64) (hcast : ∀ i, (cast i).isFinite = true) (s : SNode) (j : J) (v : VNode)
-    (hs : wf s = true) (hj : jvalid j = true) (h : fromJson cast s j = .ok v) : conf s v = true := by
-  sorry
+/-! ### bounds -/
+theorem inBoundsF_of_not_oob (x : F64) (mn mx : Option F64) (hx : x.isFinite = true)
+    (hmn : optAll F64.isFinite mn = true) (hmx : optAll F64.isFinite mx = true)
+    (h : outOfBoundsF x mn mx = false) : inBoundsF x mn mx = true := by
+  cases x <;> simp [F64.isFinite] at hx
+  rcases mn with _ | (_ | _ | a | _) <;> rcases mx with _ | (_ | _ | b | _) <;>
+    simp [optAll, F64.isFinite] at hmn hmx <;>
+    simp [outOfBoundsF, F64.lt] at h <;>
+    simp [inBoundsF, optAll, F64.isFinite, F64.le_fin] <;> omega
 
-/-- serialise, read back, serialise: same JSON -/
-theorem roundtrip_json (cast : Int → F64) (s : SNode) (v : VNode) (hs : wf s = true) (hv : conf s v = true) :
+theorem not_oob_of_inBoundsF (x : F64) (mn mx : Option F64) (h : inBoundsF x mn mx = true) :
+    outOfBoundsF x mn mx = false := by
+  cases x <;> simp [inBoundsF, F64.isFinite] at h
+  rcases mn with _ | (_ | _ | a | _) <;> rcases mx with _ | (_ | _ | b | _) <;>
+    simp [optAll, F64.le, F64.lt, F64.feq] at h <;>
+    simp [outOfBoundsF, F64.lt] <;> omega
+
+theorem inBoundsI_of_not_oob (x : Int) (mn mx : Option Int) (hx : inI64 x = true)
+    (h : outOfBoundsI x mn mx = false) : inBoundsI x mn mx = true := by
+  rcases mn with _ | a <;> rcases mx with _ | b <;>
+    simp [outOfBoundsI] at h <;> simp [inBoundsI, optAll, hx] <;> omega
+
+theorem not_oob_of_inBoundsI (x : Int) (mn mx : Option Int) (h : inBoundsI x mn mx = true) :
+    outOfBoundsI x mn mx = false := by
+  rcases mn with _ | a <;> rcases mx with _ | b <;>
+    simp [inBoundsI, optAll] at h <;> simp [outOfBoundsI] <;> omega
+
+/-! ### sorted key lists and `VEntries.insert` -/
+theorem sortedNat_cons (a : Nat) : ∀ (l : List Nat), sortedNat (a :: l) = true ↔ ((∀ x ∈ l, a < x) ∧ sortedNat l = true)
+  | [] => by simp [sortedNat]
+  | b :: r => by
+      have ih := sortedNat_cons b r
+      simp only [sortedNat, Bool.and_eq_true, decide_eq_true_eq, List.mem_cons, forall_eq_or_imp]
+      constructor
+      · intro ⟨h1, h2⟩
+        refine ⟨⟨h1, fun x hx => ?_⟩, h2⟩
+        have := (ih.1 h2).1 x hx
+        omega
+      · intro ⟨⟨h1, _⟩, h3⟩
+        exact ⟨h1, h3⟩
+
+theorem VEntries.length_eq_keys : ∀ (m : VEntries), m.length = m.keys.length
+  | .nil => rfl
+  | .cons _ _ r => by simp [VEntries.length, VEntries.keys, VEntries.length_eq_keys r]
+
+theorem VEntries.mem_insert_keys (k : Nat) (v : VNode) : ∀ (m : VEntries) (x : Nat),
+    x ∈ (m.insert k v).keys ↔ (x = k ∨ x ∈ m.keys)
+  | .nil, x => by simp [VEntries.insert, VEntries.keys]
+  | .cons k' v' r, x => by
+      simp only [VEntries.insert]
+      split
+      · simp [VEntries.keys]
+      · split
+        · rename_i h; have : k = k' := by simpa using h
+          subst this; simp [VEntries.keys]
+        · simp only [VEntries.keys, List.mem_cons, VEntries.mem_insert_keys k v r x]
+          constructor <;> intro h <;> rcases h with h | h | h <;> simp [h]
+
+theorem VEntries.insert_sorted (k : Nat) (v : VNode) : ∀ (m : VEntries), sortedNat m.keys = true →
+    sortedNat (m.insert k v).keys = true
+  | .nil, _ => by simp [VEntries.insert, VEntries.keys, sortedNat]
+  | .cons k' v' r, h => by
+      have h' := (sortedNat_cons k' r.keys).1 (by simpa [VEntries.keys] using h)
+      simp only [VEntries.insert]
+      split
+      · rename_i hlt
+        simp only [VEntries.keys] at h ⊢
+        simp [sortedNat, hlt, h]
+      · split
+        · rename_i h2; have : k = k' := by simpa using h2
+          subst this; simpa [VEntries.keys] using h
+        · rename_i h1 h2
+          have hne : ¬ k = k' := by simpa using h2
+          simp only [VEntries.keys]
+          rw [sortedNat_cons]
+          refine ⟨fun x hx => ?_, VEntries.insert_sorted k v r h'.2⟩
+          rcases (VEntries.mem_insert_keys k v r x).1 hx with hx | hx
+          · omega
+          · exact h'.1 x hx
+
+theorem VEntries.insert_conf (e : SNode) (k : Nat) (v : VNode) (hv : conf e v = true) : ∀ (m : VEntries),
+    confEntries e m = true → confEntries e (m.insert k v) = true
+  | .nil, _ => by simp [VEntries.insert, confEntries, hv]
+  | .cons k' v' r, h => by
+      simp only [confEntries, Bool.and_eq_true] at h
+      simp only [VEntries.insert]
+      split
+      · simp [confEntries, hv, h]
+      · split
+        · simp [confEntries, hv, h]
+        · simp [confEntries, h, VEntries.insert_conf e k v hv r h.2]
+
+/-- inserting a key below all keys of a sorted list conses it -/
+theorem VEntries.insert_lt (k : Nat) (v : VNode) : ∀ (m : VEntries), (∀ x ∈ m.keys, k < x) → m.insert k v = .cons k v m
+  | .nil, _ => rfl
+  | .cons k' v' r, h => by
+      have : k < k' := h k' (by simp [VEntries.keys])
+      simp [VEntries.insert, this]
+
+/-! ### whatever `fromJson` accepts conforms -/
+
+def JList.length : JList → Nat
+  | .nil => 0 | .cons _ r => r.length + 1
+
+/- ADDED HYPOTHESIS of `fromJson_conf`: every JSON array of the document has at most `usize::MAX` elements (true of
+   every `Vec`).  Without it an array-form map of more than `usize::MAX + 1` elements read against a map spec without
+   `max_size` would get keys beyond `usize::MAX`, which `conf` forbids. -/
+mutual
+def jsized : J → Bool
+  | .arr l => decide (l.length ≤ usizeMax) && jsizedList l
+  | .obj f => jsizedFields f
+  | _ => true
+def jsizedList : JList → Bool
+  | .nil => true | .cons j r => jsized j && jsizedList r
+def jsizedFields : JFields → Bool
+  | .nil => true | .cons _ j r => jsized j && jsizedFields r
+end
+
+theorem parseUsize_le (k : String) (n : Nat) (h : parseUsize k = some n) : n ≤ usizeMax := by
+  unfold parseUsize at h
+  simp only at h
+  split at h <;> split at h <;> simp at h <;> omega
+
+theorem fromJson_opt_null (cast : Int → F64) (e : SNode) (p : Bool) : fromJson cast (.opt e p) .null = .ok .onone := by
+  simp [fromJson]
+
+theorem fromJson_opt_ne (cast : Int → F64) (e : SNode) (p : Bool) (j : J) (hj : j ≠ .null) :
+    fromJson cast (.opt e p) j =
+      (match fromJson cast e j with | .ok v => .ok (.osome v) | .error err => .error err) := by
+  cases j <;> first | exact absurd rfl hj | (simp only [fromJson]; split <;> simp [*])
+
+theorem fromJson_variant_nil (cast : Int → F64) (o : SFields) (i : String) :
+    fromJson cast (.variant o i) (.obj .nil) = .error .exactlyOneVariant := by
+  simp [fromJson]
+theorem fromJson_variant_two (cast : Int → F64) (o : SFields) (i : String) k j k' j' r :
+    fromJson cast (.variant o i) (.obj (.cons k j (.cons k' j' r))) = .error .exactlyOneVariant := by
+  simp [fromJson]
+
+mutual
+theorem fromJson_conf (cast : Int → F64) (hcast : ∀ i, (cast i).isFinite = true)
+    (s : SNode) (j : J) (v : VNode)
+    (hs : wf s = true) (hj : jvalid j = true) (hz : jsized j = true) (h : fromJson cast s j = .ok v) : conf s v = true := by
+  cases s with
+  | real i sc mn mx =>
+      simp only [wf, Bool.and_eq_true] at hs
+      cases j <;> simp only [fromJson] at h <;> try (simp at h; done)
+      all_goals
+        split at h
+        · simp at h
+        · rename_i hb
+          injection h with h; subst h
+          simp only [conf]
+          first
+            | exact inBoundsF_of_not_oob _ _ _ (hcast _) hs.1.1.1.1.2 hs.1.1.1.2 (by simpa using hb)
+            | exact inBoundsF_of_not_oob _ _ _ (by simpa [jvalid] using hj) hs.1.1.1.1.2 hs.1.1.1.2 (by simpa using hb)
+  | int i sc mn mx =>
+      cases j <;> simp only [fromJson] at h <;> try (simp at h; done)
+      split at h
+      · simp at h
+      · rename_i hb
+        injection h with h; subst h
+        simp only [conf]
+        exact inBoundsI_of_not_oob _ _ _ (by simpa [jvalid] using hj) (by simpa using hb)
+  | bool b =>
+      cases j <;> simp only [fromJson] at h <;> try (simp at h; done)
+      injection h with h; subst h; simp [conf]
+  | sub sf =>
+      simp only [wf, Bool.and_eq_true] at hs
+      cases j <;> simp only [fromJson] at h <;> try (simp at h; done)
+      rename_i jf
+      split at h
+      · rename_i f hf
+        injection h with h; subst h
+        simp only [conf]
+        exact fromJsonSub_conf cast hcast sf jf f hs.2 (by simpa [jvalid] using hj) (by simpa [jsized] using hz) hf
+      · simp at h
+  | array e n =>
+      simp only [wf, Bool.and_eq_true] at hs
+      cases j <;> simp only [fromJson] at h <;> try (simp at h; done)
+      rename_i l
+      split at h
+      · rename_i vl hl
+        split at h
+        · rename_i hlen
+          injection h with h; subst h
+          simp only [conf, Bool.and_eq_true]
+          simp only [jsized, Bool.and_eq_true] at hz
+          exact ⟨hlen, fromJsonList_conf cast hcast e l vl hs.2 (by simpa [jvalid] using hj) hz.2 hl⟩
+        · simp at h
+      · simp at h
+  | amap e n mn mx =>
+      simp only [wf, Bool.and_eq_true] at hs
+      cases j <;> simp only [fromJson] at h <;> try (simp at h; done)
+      · rename_i l
+        split at h
+        · rename_i m hm
+          split at h
+          · rename_i hsz
+            injection h with h; subst h
+            simp only [jsized, Bool.and_eq_true, decide_eq_true_eq] at hz
+            obtain ⟨h1, h2, h3⟩ := fromJsonIdx_conf cast hcast e 0 l m hs.2 (by simpa [jvalid] using hj) hz.2 hm
+            simp only [conf, Bool.and_eq_true, List.all_eq_true, decide_eq_true_eq]
+            refine ⟨⟨⟨h2, fun x hx => ?_⟩, hsz⟩, h1⟩
+            have := h3 x hx
+            omega
+          · simp at h
+        · simp at h
+      · rename_i jf
+        split at h
+        · rename_i m hm
+          split at h
+          · rename_i hsz
+            injection h with h; subst h
+            obtain ⟨h1, h2, h3⟩ := fromJsonMap_conf cast hcast e jf m hs.2 (by simpa [jvalid] using hj) (by simpa [jsized] using hz) hm
+            simp only [conf, Bool.and_eq_true, List.all_eq_true, decide_eq_true_eq]
+            exact ⟨⟨⟨h2, h3⟩, hsz⟩, h1⟩
+          · simp at h
+        · simp at h
+  | variant o i =>
+      simp only [wf, Bool.and_eq_true] at hs
+      cases j <;> try (simp [fromJson] at h; done)
+      rename_i jf
+      cases jf with
+      | nil => simp [fromJson] at h
+      | cons k cj r =>
+        cases r with
+        | cons => simp [fromJson] at h
+        | nil =>
+          simp only [fromJson] at h
+          split at h
+          · rename_i cs hcs
+            split at h
+            · rename_i v' hv'
+              injection h with h; subst h
+              simp only [conf, hcs]
+              simp only [jvalid, jvalidFields, Bool.and_eq_true] at hj
+              simp only [jsized, jsizedFields, Bool.and_eq_true] at hz
+              exact fromJson_conf cast hcast cs cj v' (lookup_wf o k cs hs.2 hcs) hj.1 hz.1 hv'
+            · simp at h
+          · simp at h
+  | «enum» vs i =>
+      cases j <;> simp only [fromJson] at h <;> try (simp at h; done)
+      split at h
+      · rename_i hc
+        injection h with h; subst h
+        simpa [conf] using hc
+      · simp at h
+  | opt e p =>
+      simp only [wf] at hs
+      by_cases hn : j = .null
+      · subst hn
+        rw [fromJson_opt_null] at h
+        injection h with h; subst h; simp [conf]
+      · rw [fromJson_opt_ne _ _ _ _ hn] at h
+        split at h
+        · rename_i v' hv'
+          injection h with h; subst h
+          simp only [conf]
+          exact fromJson_conf cast hcast e j v' hs hj hz hv'
+        · simp at h
+  | const =>
+      cases j <;> simp only [fromJson] at h <;> try (simp at h; done)
+      injection h with h; subst h; simp [conf]
+termination_by (sizeOf j, sizeOf s)
+theorem fromJsonSub_conf (cast : Int → F64) (hcast : ∀ i, (cast i).isFinite = true)
+    (sf : SFields) (jf : JFields) (vf : VFields)
+    (hs : wfFields sf = true) (hj : jvalidFields jf = true) (hz : jsizedFields jf = true)
+    (h : fromJsonSub cast sf jf = .ok vf) : confFields sf vf = true := by
+  cases sf <;> cases jf <;> simp only [fromJsonSub] at h <;> try (simp at h; done)
+  · injection h with h; subst h; simp [confFields]
+  · rename_i k s sr k' j jr
+    simp only [wfFields, Bool.and_eq_true] at hs
+    simp only [jvalidFields, Bool.and_eq_true] at hj
+    simp only [jsizedFields, Bool.and_eq_true] at hz
+    split at h
+    · split at h
+      · rename_i v hv
+        split at h
+        · rename_i r hr
+          injection h with h; subst h
+          simp only [confFields, Bool.and_eq_true]
+          exact ⟨⟨by simp, fromJson_conf cast hcast s j v hs.1 hj.1 hz.1 hv⟩, fromJsonSub_conf cast hcast sr jr r hs.2 hj.2 hz.2 hr⟩
+        · simp at h
+      · simp at h
+    · split at h <;> simp at h
+termination_by (sizeOf jf, sizeOf sf)
+theorem fromJsonList_conf (cast : Int → F64) (hcast : ∀ i, (cast i).isFinite = true)
+    (e : SNode) (l : JList) (vl : VList)
+    (hs : wf e = true) (hj : jvalidList l = true) (hz : jsizedList l = true)
+    (h : fromJsonList cast e l = .ok vl) : confList e vl = true := by
+  cases l <;> simp only [fromJsonList] at h
+  · injection h with h; subst h; simp [confList]
+  · rename_i j r
+    simp only [jvalidList, Bool.and_eq_true] at hj
+    simp only [jsizedList, Bool.and_eq_true] at hz
+    split at h
+    · rename_i v hv
+      split at h
+      · rename_i vr hr
+        injection h with h; subst h
+        simp only [confList, Bool.and_eq_true]
+        exact ⟨fromJson_conf cast hcast e j v hs hj.1 hz.1 hv, fromJsonList_conf cast hcast e r vr hs hj.2 hz.2 hr⟩
+      · simp at h
+    · simp at h
+termination_by (sizeOf l, sizeOf e)
+theorem fromJsonIdx_conf (cast : Int → F64) (hcast : ∀ i, (cast i).isFinite = true)
+    (e : SNode) (a : Nat) (l : JList) (m : VEntries)
+    (hs : wf e = true) (hj : jvalidList l = true) (hz : jsizedList l = true)
+    (h : fromJsonIdx cast e a l = .ok m) :
+    confEntries e m = true ∧ sortedNat m.keys = true ∧ ∀ x ∈ m.keys, a ≤ x ∧ x < a + l.length := by
+  cases l <;> simp only [fromJsonIdx] at h
+  · injection h with h; subst h; simp [confEntries, VEntries.keys, sortedNat]
+  · rename_i j r
+    simp only [jvalidList, Bool.and_eq_true] at hj
+    simp only [jsizedList, Bool.and_eq_true] at hz
+    split at h
+    · rename_i v hv
+      split at h
+      · rename_i vr hr
+        injection h with h; subst h
+        obtain ⟨h1, h2, h3⟩ := fromJsonIdx_conf cast hcast e (a+1) r vr hs hj.2 hz.2 hr
+        simp only [confEntries, Bool.and_eq_true, VEntries.keys, sortedNat_cons, JList.length]
+        refine ⟨⟨fromJson_conf cast hcast e j v hs hj.1 hz.1 hv, h1⟩, ⟨fun x hx => ?_, h2⟩, fun x hx => ?_⟩
+        · have := h3 x hx; omega
+        · simp only [List.mem_cons] at hx
+          rcases hx with hx | hx
+          · omega
+          · have := h3 x hx; omega
+      · simp at h
+    · simp at h
+termination_by (sizeOf l, sizeOf e)
+theorem fromJsonMap_conf (cast : Int → F64) (hcast : ∀ i, (cast i).isFinite = true)
+    (e : SNode) (jf : JFields) (m : VEntries)
+    (hs : wf e = true) (hj : jvalidFields jf = true) (hz : jsizedFields jf = true)
+    (h : fromJsonMap cast e jf = .ok m) :
+    confEntries e m = true ∧ sortedNat m.keys = true ∧ ∀ x ∈ m.keys, x ≤ usizeMax := by
+  cases jf <;> simp only [fromJsonMap] at h
+  · injection h with h; subst h; simp [confEntries, VEntries.keys, sortedNat]
+  · rename_i k j r
+    simp only [jvalidFields, Bool.and_eq_true] at hj
+    simp only [jsizedFields, Bool.and_eq_true] at hz
+    split at h
+    · simp at h
+    · rename_i n hn
+      split at h
+      · rename_i v hv
+        split at h
+        · rename_i vr hr
+          injection h with h; subst h
+          obtain ⟨h1, h2, h3⟩ := fromJsonMap_conf cast hcast e r vr hs hj.2 hz.2 hr
+          split
+          · exact ⟨h1, h2, h3⟩
+          · refine ⟨VEntries.insert_conf e n v (fromJson_conf cast hcast e j v hs hj.1 hz.1 hv) vr h1,
+              VEntries.insert_sorted n v vr h2, fun x hx => ?_⟩
+            rcases (VEntries.mem_insert_keys n v vr x).1 hx with hx | hx
+            · subst hx; exact parseUsize_le k _ hn
+            · exact h3 x hx
+        · simp at h
+      · simp at h
+termination_by (sizeOf jf, sizeOf e)
+end
+
+/-! ### serialise, read back, serialise: same JSON -/
+
+section
+variable (cast : Int → F64)
+
+mutual
+theorem roundtrip_json (s : SNode) (v : VNode) (hs : wf s = true) (hv : conf s v = true) :
     ∃ v', fromJson cast s (toJson v) = .ok v' ∧ toJson v' = toJson v := by
-  sorry
+  cases v with
+  | real x =>
+      cases s <;> simp only [conf] at hv <;> try (simp at hv; done)
+      refine ⟨.real x, ?_, rfl⟩
+      simp [toJson, fromJson, not_oob_of_inBoundsF _ _ _ hv]
+  | int i =>
+      cases s <;> simp only [conf] at hv <;> try (simp at hv; done)
+      refine ⟨.int i, ?_, rfl⟩
+      simp [toJson, fromJson, not_oob_of_inBoundsI _ _ _ hv]
+  | bool b =>
+      cases s <;> simp only [conf] at hv <;> try (simp at hv; done)
+      exact ⟨.bool b, by simp [toJson, fromJson], rfl⟩
+  | sub f =>
+      cases s <;> simp only [conf] at hv <;> try (simp at hv; done)
+      rename_i sf
+      simp only [wf, Bool.and_eq_true] at hs
+      obtain ⟨f', h1, h2⟩ := rt_json_fields sf f hs.2 hv
+      exact ⟨.sub f', by simp [toJson, fromJson, h1], by simp [toJson, h2]⟩
+  | array l =>
+      cases s <;> simp only [conf] at hv <;> try (simp at hv; done)
+      rename_i e n
+      simp only [wf, Bool.and_eq_true] at hs
+      simp only [Bool.and_eq_true] at hv
+      obtain ⟨l', h1, h2, h3⟩ := rt_json_list e l hs.2 hv.2
+      refine ⟨.array l', ?_, by simp [toJson, h2]⟩
+      simp only [toJson, fromJson, h1, h3]
+      simp [hv.1]
+  | amap m =>
+      cases s <;> simp only [conf] at hv <;> try (simp at hv; done)
+      rename_i e n mn mx
+      simp only [wf, Bool.and_eq_true] at hs
+      simp only [Bool.and_eq_true, List.all_eq_true, decide_eq_true_eq] at hv
+      obtain ⟨m', h1, h2, h3⟩ := rt_json_entries e m hs.2 hv.2 hv.1.1.1 hv.1.1.2
+      refine ⟨.amap m', ?_, by simp [toJson, h2]⟩
+      have hl : m'.length = m.length := by rw [VEntries.length_eq_keys, VEntries.length_eq_keys, h3]
+      simp only [toJson, fromJson, h1, hl]
+      simp [hv.1.2]
+  | variant n v0 =>
+      cases s <;> simp only [conf] at hv <;> try (simp at hv; done)
+      rename_i o i
+      simp only [wf, Bool.and_eq_true] at hs
+      split at hv
+      · rename_i cs hcs
+        obtain ⟨v', h1, h2⟩ := roundtrip_json cs v0 (lookup_wf o n cs hs.2 hcs) hv
+        exact ⟨.variant n v', by simp [toJson, fromJson, hcs, h1], by simp [toJson, h2]⟩
+      · simp at hv
+  | «enum» x =>
+      cases s <;> simp only [conf] at hv <;> try (simp at hv; done)
+      exact ⟨.enum x, by simp only [toJson, fromJson, hv]; simp, rfl⟩
+  | onone =>
+      cases s <;> simp only [conf] at hv <;> try (simp at hv; done)
+      exact ⟨.onone, by simp [toJson, fromJson], rfl⟩
+  | osome v0 =>
+      cases s <;> simp only [conf] at hv <;> try (simp at hv; done)
+      rename_i e p
+      simp only [wf] at hs
+      obtain ⟨v', h1, h2⟩ := roundtrip_json e v0 hs hv
+      by_cases hn : toJson v0 = .null
+      · refine ⟨.onone, ?_, ?_⟩
+        · simp only [toJson, hn]; exact fromJson_opt_null cast e p
+        · simp [toJson, hn]
+      · refine ⟨.osome v', ?_, by simp [toJson, h2]⟩
+        simp only [toJson]
+        rw [fromJson_opt_ne cast e p _ hn, h1]
+  | const =>
+      cases s <;> simp only [conf] at hv <;> try (simp at hv; done)
+      exact ⟨.const, by simp [toJson, fromJson], rfl⟩
+theorem rt_json_fields (sf : SFields) (vf : VFields) (hs : wfFields sf = true) (hv : confFields sf vf = true) :
+    ∃ vf', fromJsonSub cast sf (toJsonFields vf) = .ok vf' ∧ toJsonFields vf' = toJsonFields vf := by
+  cases vf with
+  | nil =>
+      cases sf <;> simp only [confFields] at hv <;> try (simp at hv; done)
+      exact ⟨.nil, by simp [toJsonFields, fromJsonSub], rfl⟩
+  | cons k' v r =>
+      cases sf <;> simp only [confFields] at hv <;> try (simp at hv; done)
+      rename_i k s sr
+      simp only [wfFields, Bool.and_eq_true] at hs
+      simp only [Bool.and_eq_true, beq_iff_eq] at hv
+      obtain ⟨⟨hk, hv1⟩, hv2⟩ := hv
+      subst hk
+      obtain ⟨v', h1, h2⟩ := roundtrip_json s v hs.1 hv1
+      obtain ⟨r', h3, h4⟩ := rt_json_fields sr r hs.2 hv2
+      exact ⟨.cons k v' r', by simp [toJsonFields, fromJsonSub, h1, h3], by simp [toJsonFields, h2, h4]⟩
+theorem rt_json_list (e : SNode) (l : VList) (hs : wf e = true) (hv : confList e l = true) :
+    ∃ l', fromJsonList cast e (toJsonList l) = .ok l' ∧ toJsonList l' = toJsonList l ∧ l'.length = l.length := by
+  cases l with
+  | nil => exact ⟨.nil, by simp [toJsonList, fromJsonList], rfl, rfl⟩
+  | cons v r =>
+      simp only [confList, Bool.and_eq_true] at hv
+      obtain ⟨v', h1, h2⟩ := roundtrip_json e v hs hv.1
+      obtain ⟨r', h3, h4, h5⟩ := rt_json_list e r hs hv.2
+      exact ⟨.cons v' r', by simp [toJsonList, fromJsonList, h1, h3], by simp [toJsonList, h2, h4],
+        by simp [VList.length, h5]⟩
+theorem rt_json_entries (e : SNode) (m : VEntries) (hs : wf e = true) (hv : confEntries e m = true)
+    (hsorted : sortedNat m.keys = true) (hle : ∀ x ∈ m.keys, x ≤ usizeMax) :
+    ∃ m', fromJsonMap cast e (toJsonEntries m) = .ok m' ∧ toJsonEntries m' = toJsonEntries m ∧ m'.keys = m.keys := by
+  cases m with
+  | nil => exact ⟨.nil, by simp [toJsonEntries, fromJsonMap], rfl, rfl⟩
+  | cons k v r =>
+      simp only [confEntries, Bool.and_eq_true] at hv
+      simp only [VEntries.keys, sortedNat_cons] at hsorted
+      simp only [VEntries.keys, List.mem_cons, forall_eq_or_imp] at hle
+      obtain ⟨v', h1, h2⟩ := roundtrip_json e v hs hv.1
+      obtain ⟨r', h3, h4, h5⟩ := rt_json_entries e r hs hv.2 hsorted.2 hle.2
+      have hnc : r'.keys.contains k = false := by
+        rw [h5]
+        simp only [List.contains_eq_mem, decide_eq_false_iff_not]
+        intro hk
+        have := hsorted.1 k hk
+        omega
+      have hins : r'.insert k v' = .cons k v' r' := VEntries.insert_lt k v' r' (by rw [h5]; exact hsorted.1)
+      refine ⟨.cons k v' r', ?_, by simp [toJsonEntries, h2, h4], by simp [VEntries.keys, h5]⟩
+      simp only [toJsonEntries, fromJsonMap, parseUsize_toString k hle.1, h1, h3, hnc, hins]
+      simp
+end
+end
 
-/-- serialise, read back: same value, when the encoding is unambiguous -/
-theorem roundtrip_value (cast : Int → F64) (s : SNode) (v : VNode) (hs : wf s = true) (hu : unambiguous s = true)
-    (hv : conf s v = true) : fromJson cast s (toJson v) = .ok v := by
-  sorry
+/-! ### serialise, read back: same value, when the encoding is unambiguous -/
+
+theorem lookup_unambiguous : ∀ (o : SFields) (k : String) (cs : SNode), unambiguousFields o = true →
+    o.lookup k = some cs → unambiguous cs = true
+  | .nil, _, _, _, h => by simp [SFields.lookup] at h
+  | .cons k' n r, k, cs, hw, h => by
+      simp only [unambiguousFields, Bool.and_eq_true] at hw
+      simp only [SFields.lookup] at h
+      split at h
+      · injection h with h; subst h; exact hw.1
+      · exact lookup_unambiguous r k cs hw.2 h
+
+/-- a value of anything but an optional or a const is not serialised as `null` -/
+theorem toJson_ne_null (e : SNode) (v : VNode) (hv : conf e v = true)
+    (he1 : ∀ e' p, e ≠ .opt e' p) (he2 : e ≠ .const) : toJson v ≠ .null := by
+  cases e <;> first | exact absurd rfl (he1 _ _) | exact absurd rfl he2 | skip
+  all_goals cases v <;> simp [conf] at hv <;> simp [toJson]
+
+section
+variable (cast : Int → F64)
+
+mutual
+theorem roundtrip_value (s : SNode) (v : VNode) (hs : wf s = true) (hu : unambiguous s = true) (hv : conf s v = true) :
+    fromJson cast s (toJson v) = .ok v := by
+  cases v with
+  | real x =>
+      cases s <;> simp only [conf] at hv <;> try (simp at hv; done)
+      simp [toJson, fromJson, not_oob_of_inBoundsF _ _ _ hv]
+  | int i =>
+      cases s <;> simp only [conf] at hv <;> try (simp at hv; done)
+      simp [toJson, fromJson, not_oob_of_inBoundsI _ _ _ hv]
+  | bool b =>
+      cases s <;> simp only [conf] at hv <;> try (simp at hv; done)
+      simp [toJson, fromJson]
+  | sub f =>
+      cases s <;> simp only [conf] at hv <;> try (simp at hv; done)
+      rename_i sf
+      simp only [wf, Bool.and_eq_true] at hs
+      simp only [unambiguous] at hu
+      simp [toJson, fromJson, rt_val_fields sf f hs.2 hu hv]
+  | array l =>
+      cases s <;> simp only [conf] at hv <;> try (simp at hv; done)
+      rename_i e n
+      simp only [wf, Bool.and_eq_true] at hs
+      simp only [unambiguous] at hu
+      simp only [Bool.and_eq_true] at hv
+      simp only [toJson, fromJson, rt_val_list e l hs.2 hu hv.2]
+      simp [hv.1]
+  | amap m =>
+      cases s <;> simp only [conf] at hv <;> try (simp at hv; done)
+      rename_i e n mn mx
+      simp only [wf, Bool.and_eq_true] at hs
+      simp only [unambiguous] at hu
+      simp only [Bool.and_eq_true, List.all_eq_true, decide_eq_true_eq] at hv
+      simp only [toJson, fromJson, rt_val_entries e m hs.2 hu hv.2 hv.1.1.1 hv.1.1.2]
+      simp [hv.1.2]
+  | variant n v0 =>
+      cases s <;> simp only [conf] at hv <;> try (simp at hv; done)
+      rename_i o i
+      simp only [wf, Bool.and_eq_true] at hs
+      simp only [unambiguous] at hu
+      split at hv
+      · rename_i cs hcs
+        simp [toJson, fromJson, hcs, roundtrip_value cs v0 (lookup_wf o n cs hs.2 hcs) (lookup_unambiguous o n cs hu hcs) hv]
+      · simp at hv
+  | «enum» x =>
+      cases s <;> simp only [conf] at hv <;> try (simp at hv; done)
+      simp only [toJson, fromJson, hv]; simp
+  | onone =>
+      cases s <;> simp only [conf] at hv <;> try (simp at hv; done)
+      simp [toJson, fromJson]
+  | osome v0 =>
+      cases s <;> simp only [conf] at hv <;> try (simp at hv; done)
+      rename_i e p
+      simp only [wf] at hs
+      simp only [unambiguous, Bool.and_eq_true] at hu
+      have hn : toJson v0 ≠ .null := by
+        apply toJson_ne_null e v0 hv
+        · intro e' p' he; subst he; simp at hu
+        · intro he; subst he; simp at hu
+      simp only [toJson]
+      rw [fromJson_opt_ne cast e p _ hn, roundtrip_value e v0 hs hu.2 hv]
+  | const =>
+      cases s <;> simp only [conf] at hv <;> try (simp at hv; done)
+      simp [toJson, fromJson]
+theorem rt_val_fields (sf : SFields) (vf : VFields) (hs : wfFields sf = true) (hu : unambiguousFields sf = true)
+    (hv : confFields sf vf = true) : fromJsonSub cast sf (toJsonFields vf) = .ok vf := by
+  cases vf with
+  | nil =>
+      cases sf <;> simp only [confFields] at hv <;> try (simp at hv; done)
+      simp [toJsonFields, fromJsonSub]
+  | cons k' v r =>
+      cases sf <;> simp only [confFields] at hv <;> try (simp at hv; done)
+      rename_i k s sr
+      simp only [wfFields, Bool.and_eq_true] at hs
+      simp only [unambiguousFields, Bool.and_eq_true] at hu
+      simp only [Bool.and_eq_true, beq_iff_eq] at hv
+      obtain ⟨⟨hk, hv1⟩, hv2⟩ := hv
+      subst hk
+      simp [toJsonFields, fromJsonSub, roundtrip_value s v hs.1 hu.1 hv1, rt_val_fields sr r hs.2 hu.2 hv2]
+theorem rt_val_list (e : SNode) (l : VList) (hs : wf e = true) (hu : unambiguous e = true)
+    (hv : confList e l = true) : fromJsonList cast e (toJsonList l) = .ok l := by
+  cases l with
+  | nil => simp [toJsonList, fromJsonList]
+  | cons v r =>
+      simp only [confList, Bool.and_eq_true] at hv
+      simp [toJsonList, fromJsonList, roundtrip_value e v hs hu hv.1, rt_val_list e r hs hu hv.2]
+theorem rt_val_entries (e : SNode) (m : VEntries) (hs : wf e = true) (hu : unambiguous e = true)
+    (hv : confEntries e m = true) (hsorted : sortedNat m.keys = true) (hle : ∀ x ∈ m.keys, x ≤ usizeMax) :
+    fromJsonMap cast e (toJsonEntries m) = .ok m := by
+  cases m with
+  | nil => simp [toJsonEntries, fromJsonMap]
+  | cons k v r =>
+      simp only [confEntries, Bool.and_eq_true] at hv
+      simp only [VEntries.keys, sortedNat_cons] at hsorted
+      simp only [VEntries.keys, List.mem_cons, forall_eq_or_imp] at hle
+      have hnc : r.keys.contains k = false := by
+        simp only [List.contains_eq_mem, decide_eq_false_iff_not]
+        intro hk
+        have := hsorted.1 k hk
+        omega
+      have hins : r.insert k v = .cons k v r := VEntries.insert_lt k v r hsorted.1
+      simp only [toJsonEntries, fromJsonMap, parseUsize_toString k hle.1, roundtrip_value e v hs hu hv.1,
+        rt_val_entries e r hs hu hv.2 hsorted.2 hle.2, hnc, hins]
+      simp
+end
+end
 
 end Cambrian
